@@ -10,8 +10,8 @@
 namespace {
 
 static const int NSESS = 4;
-static const char *CAL_NAMES[] = {"alpha", "beta", "gamma", "delta", "cal with spaces", "\xc3\xa9talon"};
-static const int NNAMES = 6;
+static const char *CAL_NAMES[] = {"alpha", "beta", "gamma", "delta", "cal with spaces", "\xc3\xa9talon", "alp", "alpha beta"};	// (some are prefixes of others)
+static const int NNAMES = 8;
 
 struct LiveParam {
     ParamSpec spec;
@@ -28,6 +28,8 @@ struct Session {
     bool fv_set = false;
     bool solved = false;	// holds a solved, not yet added calibration
     SessionSpec solved_spec;	// the standards that calibration was solved from (standards added later do not change it)
+    bool m_error = false;	// measurement-error modelling is switched on (vnacal_new_set_m_error)
+    bool solved_m_error = false;	// ... and was when the kept calibration was solved
     int failed_solves = 0;
     std::vector<int> added_params;	// indices of parameters used by accepted standards
     bool tainted = false;		// an add failed under an injected fault: registrations it left behind are C12's business
@@ -42,6 +44,7 @@ struct CalSlot {
     bool determining = false;
     bool has_unknown = false;
     bool has_vector = false;
+    bool pure_trl = false;	// exactly through + unknown reflect + unknown line: the closed-form solution, in every order of entry
     double tol_floor = 0;	// after a save/load cycle the error terms carry the file's precision
     DNode props;
 };
@@ -163,6 +166,13 @@ static int classify(const SessionSpec &ss, const std::vector<ParamSpec> &params)
     // interpolated standards are only as exact as their knots allow: a session using a coarse one
     // is not held to the truth
     for (const StdSpec &st : ss.stds) for (int pi : st.params) if (!exact_vector(params[(size_t)pi])) return 0;
+    // the positive clause of the property speaks of known standards: a session that also holds an unknown one is
+    // held to "must solve" only when the solver starts near the truth (scalar initial guess within 0.45 of the true
+    // value); whether the iteration converges from further away is not claimed
+    for (const StdSpec &st : ss.stds) for (int pi : st.params) {
+	const ParamSpec &q = params[(size_t)pi];
+	if (q.kind == 3 && (!q.kf.empty() || std::abs(q.guess - q.value) > 0.45)) return 0;
+    }
     auto known_std = [&](const StdSpec &st) { for (int pi : st.params) if (!params[(size_t)pi].known()) return false; return true; };
     double f0 = ss.fv.empty() ? 1e9 : ss.fv[0];
     // through - reflect - line on a two-port 8/10-term calibration: a known through, the same unknown reflection on
@@ -254,6 +264,24 @@ static int classify(const SessionSpec &ss, const std::vector<ParamSpec> &params)
 	}
     }
     return 1;
+}
+
+// exactly a through, the same unknown reflection on both ports and a line (MATCH, l; l, MATCH) with unknown l on a
+// two-port 8/10-term calibration: vnacal_new_solve uses the closed-form TRL solution, whatever the order of entry
+static bool is_pure_trl(const SessionSpec &ss, const std::vector<ParamSpec> &params)
+{
+    WorldClass cls = world_class_of(ss.type);
+    if (ss_rect(ss) || ss.P != 2 || (cls != W8 && cls != W10) || ss.stds.size() != 3) return false;
+    int t = 0, r = 0, l = 0;
+    for (const StdSpec &st : ss.stds) {
+	if (st.kind == 2) ++t;
+	else if (st.kind == 1 && st.params[0] == st.params[1] && params[(size_t)st.params[0]].kind == 3) ++r;
+	else if (st.kind == 3 && st.params[1] == st.params[2] && params[(size_t)st.params[1]].kind == 3) {
+	    const ParamSpec &a = params[(size_t)st.params[0]], &b = params[(size_t)st.params[3]];
+	    if (a.kind == 0 && a.predefined == VNACAL_MATCH && b.kind == 0 && b.predefined == VNACAL_MATCH) ++l;
+	}
+    }
+    return t == 1 && r == 1 && l == 1;
 }
 
 // ---- table check after every catalogue-changing operation ----------------------------
@@ -452,7 +480,7 @@ static void run_op(CalWorld &w, const Op &op, const Plan &plan)
 	int gi = resolve_param(w, op.I(0));
 	bool guess_live = gi < 0 || w.params[(size_t)gi].live;
 	LiveParam lp;
-	lp.spec.kind = 3; lp.spec.value = zc(op.D(0), op.D(1)); lp.spec.guess = param_truth(g, 1e9);
+	lp.spec.kind = 3; lp.spec.value = zc(op.D(0), op.D(1)); lp.spec.guess = g.kind == 3 ? g.guess : param_truth(g, 1e9);	// (an unknown given as initial guess passes on its own initial guess)
 	int h;
 	{
 	    LIB_RETRY(c, &op, "vnacal_make_unknown_parameter", u_err, h < 0, h = vnacal_make_unknown_parameter(w.vcp, gh); CAPTURE_CB);
@@ -584,6 +612,34 @@ static void run_op(CalWorld &w, const Op &op, const Plan &plan)
 	if (s.spec.set_z0) { int rc; { LibCall lc(c); rc = vnacal_new_set_z0(vnp, toc(s.spec.z0)); lc.done(); } if (rc != 0) { c.violate("model", "new:setz0", "vnacal_new_set_z0 failed"); return; } }
 	return;
     }
+    if (k == "merror") {
+	// measurement-error modelling with small sigmas: the data of the simulated instrument are exact, so the
+	// weighting may not move the solution (and the consistency test has nothing to object to)
+	Session &s = w.sess[op.I(0) % NSESS];
+	if (!s.active || s.spec.F == 0) return;
+	int mode = (int)(op.I(1) % 4);	// 0 one value for all frequencies, 1 per calibration frequency (NULL frequency vector), 2 own frequency vector, 3 switch off
+	int F = s.spec.F;
+	int n = mode == 0 ? 1 : mode == 1 ? F : 3;
+	std::vector<double> fv, nf, tr;
+	double lo = s.spec.fv.front(), hi = s.spec.fv.back();
+	for (int q = 0; q < n; ++q) { fv.push_back(lo * 0.9 + (hi * 1.1 - lo * 0.9) * q / std::max(1, n - 1)); nf.push_back(1e-7 * (1 + q)); tr.push_back(1e-7); }
+	bool with_tr = op.I(2) % 2 != 0;
+	const double *pf = mode == 2 ? fv.data() : nullptr, *pn = mode == 3 ? nullptr : nf.data(), *pt = mode == 3 || !with_tr ? nullptr : tr.data();
+	int rc, e;
+	LIB_RETRY(c, &op, "vnacal_new_set_m_error", e, rc != 0, rc = vnacal_new_set_m_error(s.vnp, pf, n, pn, pt));
+	c.log(" set_m_error mode %d -> %d errno=%s", mode, rc, rc ? errno_name(e) : "-");
+	if (c.violated) return;
+	bool sixteen = world_class_of(s.spec.type) == W16;
+	if (rc != 0) {
+	    if (!s.fv_set || sixteen) { if (e != EINVAL) c.violate("model", "merror:errno", strf("set_m_error refused with errno %s", errno_name(e))); else c.count("probe.merror_refused"); return; }
+	    c.violate("model", "merror:rc", strf("vnacal_new_set_m_error refused valid arguments (errno %s)", errno_name(e)));
+	    return;
+	}
+	if (!s.fv_set && mode != 3) { c.violate("model", "merror:rc", "vnacal_new_set_m_error accepted noise vectors before the frequency vector was set"); return; }
+	s.m_error = mode != 3;
+	c.count(s.m_error ? "probe.merror_on" : "probe.merror_off");
+	return;
+    }
     if (k == "setfv") {
 	Session &s = w.sess[op.I(0) % NSESS];
 	if (!s.active || s.fv_set || s.spec.F == 0) return;
@@ -697,7 +753,8 @@ static void run_op(CalWorld &w, const Op &op, const Plan &plan)
 	if (s.spec.F == 0) return;
 	SessionSpec tmp = s.spec;
 	StdCall sc = feed_standard(c, s.vnp, tmp, st, pl, handles, &op);
-	c.log(" add kind=%d ports=%d,%d full=%d variant=%d -> %d errno=%s %s", st.kind, p1, p2, (int)st.full, st.variant, sc.rc, sc.rc ? errno_name(sc.err) : "-", sc.msg.c_str());
+	{ std::string pd; for (int pi : pidx) { const ParamSpec &q = w.params[(size_t)pi].spec; pd += strf(" p%d:k%d(%.3g%+.3gj)", pi, q.kind, q.value.real(), q.value.imag()); if (q.kind == 3) pd += strf("~(%.3g%+.3gj)", q.guess.real(), q.guess.imag()); }
+	  c.log(" add kind=%d ports=%d,%d full=%d variant=%d%s -> %d errno=%s %s", st.kind, p1, p2, (int)st.full, st.variant, pd.c_str(), sc.rc, sc.rc ? errno_name(sc.err) : "-", sc.msg.c_str()); }
 	if (c.violated) return;
 	if (sc.rc == 0) {
 	    if (!all_live && !s.tainted) { c.violate("model", "add:deleted", "a standard naming a deleted parameter handle was accepted"); return; }
@@ -712,6 +769,7 @@ static void run_op(CalWorld &w, const Op &op, const Plan &plan)
 	    // (whether the call would have failed without the fault is not known here: the strict ENOMEM
 	    // clause is decided by the C12 enumeration, where the fault-free outcome is known)
 	    if (sc.fired) { s.tainted = true; c.count("probe.add_failed_by_fault"); if (sc.err != ENOMEM && sc.err != EINVAL && sc.err != EDOM) c.violate("model", "add:errno", strf("add failed under an allocation fault with errno %s", errno_name(sc.err))); return; }
+	    if (all_live && covered && s.m_error && world_class_of(s.spec.type) == W16 && sc.err == EINVAL) { c.count("probe.partial_standard_refused_under_measurement_errors"); return; }	// (vnacal_new(3): with error modelling the 16-term types need every standard to specify the whole S matrix)
 	    if (all_live && covered) { c.violate("model", "add:rc", strf("valid standard refused: kind %d ports %d,%d full %d variant %d: %s", st.kind, p1, p2, (int)st.full, st.variant, sc.msg.c_str())); return; }
 	    if (sc.err != EINVAL) { c.violate("model", "add:errno", strf("standard refused with errno %s, expected EINVAL", errno_name(sc.err))); return; }
 	    c.count(all_live ? "probe.range_refused" : "probe.deleted_handle_refused");
@@ -723,6 +781,9 @@ static void run_op(CalWorld &w, const Op &op, const Plan &plan)
 	if (!s.active) return;
 	std::vector<ParamSpec> pl; for (auto &lp : w.params) pl.push_back(lp.spec);
 	int cls = s.fv_set ? classify(s.spec, pl) : 0;
+	// with measurement-error modelling switched on, whether a solve succeeds also depends on the library's
+	// consistency test (C18, not claimed): the solve is exercised (sanitizers, leaks, reporting) but not judged
+	if (s.m_error) { cls = 0; c.count("probe.solve_with_measurement_errors"); }
 	int rc, e = 0; bool fired = false; std::string msg; int cat = -1; size_t ncb = 0;
 	// (a solve that fails because of an injected allocation failure is re-issued without it)
 	LIB_RETRY(c, &op, "vnacal_new_solve", e, rc != 0,
@@ -733,7 +794,7 @@ static void run_op(CalWorld &w, const Op &op, const Plan &plan)
 	c.log(" solve class=%d -> %d errno=%s %s", cls, rc, rc ? errno_name(e) : "-", msg.c_str());
 	if (c.violated) return;
 	c.count(strf("solve.class%d.%s", cls, rc == 0 ? "ok" : "fail"));
-	if (fired) { if (rc != 0 && e != ENOMEM && e != EDOM && e != EINVAL) c.violate("model", "solve:errno", strf("solve failed under an allocation fault with errno %s", errno_name(e))); if (rc != 0) { ++s.failed_solves; c.count("probe.solve_failed_by_fault"); } else { s.solved = true; s.solved_spec = s.spec; } return; }
+	if (fired) { if (rc != 0 && e != ENOMEM && e != EDOM && e != EINVAL) c.violate("model", "solve:errno", strf("solve failed under an allocation fault with errno %s", errno_name(e))); if (rc != 0) { ++s.failed_solves; c.count("probe.solve_failed_by_fault"); } else { s.solved = true; s.solved_spec = s.spec; s.solved_m_error = s.m_error; } return; }
 	if (!s.fv_set) { if (rc == 0) c.violate("model", "solve:rc", "solve succeeded before the frequency vector was set"); else if (e != EINVAL) c.violate("model", "solve:errno", strf("solve without frequency vector: errno %s", errno_name(e))); return; }
 	if (rc != 0) {
 	    ++s.failed_solves;
@@ -747,7 +808,7 @@ static void run_op(CalWorld &w, const Op &op, const Plan &plan)
 	}
 	if (cls == 2) { c.violate("model", "solve:insufficient", strf("solve succeeded with fewer measured values than unknown error terms (%zu standards)", s.spec.stds.size())); return; }
 	s.solved = true;
-	s.solved_spec = s.spec;
+	s.solved_spec = s.spec; s.solved_m_error = s.m_error;
 	if (s.failed_solves > 0) c.count("probe.solve_after_failures");
 	if (cls == 1) { bool unk = false; for (auto &st : s.spec.stds) for (int pi : st.params) if (!pl[(size_t)pi].known()) unk = true; if (unk) c.count("probe.determining_set_with_unknown_standards_solved"); }
 	// unknown parameters of this session now carry solved values over the session's band
@@ -773,9 +834,10 @@ static void run_op(CalWorld &w, const Op &op, const Plan &plan)
 	CalSlot slot;
 	if (s.solved_spec.stds.size() != s.spec.stds.size()) c.count("probe.addcal_after_later_standards");
 	slot.ci = ci; slot.name = name; slot.spec = s.solved_spec; slot.params = pl;
-	slot.determining = classify(s.solved_spec, pl) == 1;
+	slot.determining = classify(s.solved_spec, pl) == 1 && !s.solved_m_error;	// (no accuracy claim for a calibration solved with error modelling: C18 is not claimed)
 	for (auto &st : s.solved_spec.stds) for (int pi : st.params) if (!pl[(size_t)pi].known()) slot.has_unknown = true;
 	for (auto &st : s.solved_spec.stds) for (int pi : st.params) if (pl[(size_t)pi].kind == 2) slot.has_vector = true;
+	slot.pure_trl = is_pure_trl(s.solved_spec, pl) && !s.solved_m_error;
 	auto it = w.table.find(name);
 	if (it != w.table.end()) { c.count("probe.replace_by_name"); if (it->second.ci != ci) c.count("probe.replace_moved_slot"); w.table.erase(it); }
 	for (auto &kv : w.table) if (kv.second.ci == ci) { c.violate("model", "addcal:index", strf("add_calibration(\"%s\") returned index %d which holds live calibration \"%s\"", name.c_str(), ci, kv.second.name.c_str())); return; }
@@ -830,7 +892,8 @@ static void run_op(CalWorld &w, const Op &op, const Plan &plan)
 	    ApplyResult solo; std::string why;
 	    if (!solo_apply(c, slot.spec, slot.params, fq, dut_seed, o, solo, why)) { if (!c.violated) c.violate("model", "apply:twin", "equivalent description of the same calibration fails: " + why); return; }
 	    double d = max_diff(r, solo);
-	    double ttol = slot.has_unknown ? 1e-4 : 1e-7;
+	    double ttol = slot.pure_trl ? 2e-8 : slot.has_unknown ? 1e-4 : 1e-7;	// (closed forms and linear solves agree to rounding, iterative ones to the solver's tolerance)
+	    if (slot.pure_trl) c.count(d <= 1e-12 ? "probe.twin_pure_trl_within_1e-12" : d <= 1e-10 ? "probe.twin_pure_trl_within_1e-10" : d <= 2e-8 ? "probe.twin_pure_trl_within_2e-8" : "probe.twin_pure_trl_beyond_2e-8");
 	    if (!(d <= ttol)) { c.violate("model", "apply:equivalent", strf("calibration \"%s\" and its equivalent description (permuted %d, entry points flipped %d, shapes flipped %d, a/b scale %g, per-frequency %d, alt type %d) differ by %.3g", name.c_str(), (int)o.permute, (int)o.flip_variants, (int)o.flip_shape, o.ab_scale, (int)o.per_frequency, o.alt_type, d)); return; }
 	    c.count("probe.twin_agrees");
 	    if (o.permute) c.count("probe.twin_permuted");
